@@ -29,13 +29,24 @@ def spec_pareto(p, q, mp, mq):
     return 0
 
 
+_SHARED = {}
+
+
 def impl_pareto(p, q, mp, mq):
+    # one long-lived comparator, used for vectors of every length (a verdict must not depend on history)
     from artap.operators import ParetoDominance
-    return ParetoDominance().compare(list(p) + [mp], list(q) + [mq])
+    if "pareto" not in _SHARED:
+        _SHARED["pareto"] = ParetoDominance()
+    return _SHARED["pareto"].compare(list(p) + [mp], list(q) + [mq])
 
 
-def impl_eps(eps, p, q, mp, mq):
+def impl_eps(eps, p, q, mp, mq, shared=False):
     from artap.operators import EpsilonDominance
+    if shared:   # comparator instances live across calls with different numbers of objectives
+        key = ("eps", tuple(eps))
+        if key not in _SHARED:
+            _SHARED[key] = EpsilonDominance(list(eps))
+        return _SHARED[key].compare(list(p) + [mp], list(q) + [mq])
     return EpsilonDominance(eps).compare(list(p) + [mp], list(q) + [mq])
 
 
@@ -140,10 +151,12 @@ def run(ctx):
             continue
         ne = rng.randint(1, m + 1)
         eps = [10 ** rng.uniform(-6, 3) if rng.random() < 0.7 else rng.choice([1.0, 0.5, 0.1, 3]) for _ in range(ne)]
+        if rng.random() < 0.4:
+            eps = rng.choice([[0.1, 0.1], [0.5], [1.0, 2.0, 3.0], [0.01]])   # shared instances, see impl_eps
         mp = rng.choice(MARKERS)
         mq = mp if rng.random() < 0.6 else rng.choice(MARKERS)
         ecases.append((eps, p, q, mp, mq))
-    eimpl = [impl_eps(*c) for c in ecases]
+    eimpl = [impl_eps(*c, shared=(c[0] in ([0.1, 0.1], [0.5], [1.0, 2.0, 3.0], [0.01]))) for c in ecases]
     emodel = ctx.lean([eps_line(*c) for c in ecases])
     for c, i, mo in zip(ecases, eimpl, emodel):
         eps, p, q, mp, mq = c
@@ -189,10 +202,14 @@ def replay(ctx, rp):
         return got == want
     if c.get("op") == "eps":
         mp, mq = c["markers"]
+        from artap.operators import EpsilonDominance
         got = impl_eps(c["eps"], c["p"], c["q"], mp, mq)
+        inst = EpsilonDominance(list(c["eps"]))
+        inst.compare([0.0, 0], [1.0, 0])       # the same instance was used with one objective before
+        got2 = inst.compare(list(c["p"]) + [mp], list(c["q"]) + [mq])
         want = 2 if (c["p"] == c["q"] and abs(mp) == abs(mq)) else spec_pareto(c["p"], c["q"], mp, mq)
-        print("eps compare impl=%s expected=%s" % (got, want))
-        return got == want
+        print("eps compare: fresh comparator=%s, comparator used before with 1 objective=%s, expected=%s" % (got, got2, want))
+        return got == want and got2 == want
     if c.get("op") == "trans":
         ma, mb, mc = [eval(x) for x in c["markers"]]
         r = impl_pareto(c["a"], c["b"], ma, mb), impl_pareto(c["b"], c["c"], mb, mc), impl_pareto(c["a"], c["c"], ma, mc)
